@@ -1,5 +1,322 @@
 import Sentinel.Drv.Common
-/-! Driver for C05 (stub: replaced by the property's real driver) -/
+import Sentinel.Model.Hot
+/-!
+Driver for C05.
+
+Ops
+```
+clock <ms>                                        set the virtual clock
+tick <ms>                                         advance the virtual clock
+load <n> <rule>*n                                 hotspot.LoadRules on a cleared module  => number of rules in force
+      rule = res=<name>,cb=<0|1|k>,idx=<int>,key=<name|->,T=<int>,burst=<int>,D=<int>,mq=<int>,cap=<int>,items=<-|val@int;val@int…>
+entry <res> <batch> <nargs> <val>*nargs <natt> <key=val>*natt
+      => pass | block <rule#> | spin, optionally followed by ` w:<ns>,<ns>…` (sleeps asked of the clock, in order)
+```
+`model`  = the code-shaped model (`Sentinel.Hot.slotCheck`).
+`oracle` = judges an implementation trace against the literal claims of the property (envelope, two-max,
+idle-grant, pacing, wait<max, no-arg, independence), from the history alone.
+-/
 namespace Sentinel.Drv.C05
-def run (_mode : String) : IO Unit := IO.eprintln "C05: driver not implemented"
+open Sentinel.Hot Sentinel.Drv
+
+/-! ### parsing -/
+
+def splitFirst (s : String) (sep : String) : String × String :=
+  match s.splitOn sep with
+  | a :: rest => (a, sep.intercalate rest)
+  | [] => (s, "")
+
+def parseItems (s : String) : Option (List (Val × Int)) :=
+  if s = "-" || s = "" then some [] else
+  (s.splitOn ";").mapM fun it =>
+    match it.splitOn "@" with
+    | [v, t] => t.toInt?.map fun t => (v, t)
+    | _ => none
+
+def parseRule (s : String) : Option Rule :=
+  (s.splitOn ",").foldlM (fun (r : Rule) kv =>
+    let (k, v) := splitFirst kv "="
+    match k with
+    | "res" => some { r with res := if v = "-" then "" else v }
+    | "key" => some { r with key := if v = "-" then "" else v }
+    | "items" => (parseItems v).map fun it => { r with items := it }
+    | _ => match v.toInt? with
+      | none => none
+      | some n => match k with
+        | "cb" => some { r with cb := n }
+        | "idx" => some { r with idx := n }
+        | "T" => some { r with T := n }
+        | "burst" => some { r with burst := n }
+        | "D" => some { r with D := n }
+        | "mq" => some { r with mq := n }
+        | "cap" => some { r with cap := n }
+        | _ => none) ({} : Rule)
+
+structure Entry where
+  res : String
+  b : Int
+  args : List Val
+  atts : List (String × Val)
+
+def parseEntry (ts : List String) : Option Entry :=
+  match ts with
+  | "entry" :: res :: b :: na :: rest =>
+    match b.toNat?, na.toNat? with
+    | some b, some na =>
+      let args := rest.take na
+      match rest.drop na with
+      | nt :: rest2 =>
+        match nt.toNat? with
+        | some nt =>
+          if args.length = na ∧ rest2.length = nt then
+            some { res := res, b := b, args := args, atts := rest2.map fun kv => splitFirst kv "=" }
+          else none
+        | none => none
+      | [] => none
+    | _, _ => none
+  | _ => none
+
+def showSleeps (sl : List Int) : String :=
+  if sl.isEmpty then "" else " w:" ++ ",".intercalate (sl.map toString)
+
+/-! ### model mode -/
+
+structure St where
+  ctls : List Ctl := []
+  nowNs : Int := 0
+
+def stepModel (s : St) (ts : List String) (_ : String) : St × Option String :=
+  match ts with
+  | ["clock", t] => match t.toNat? with
+      | some t => ({ s with nowNs := (t : Int) * 1000000 }, none)
+      | none => (s, some "bad-op")
+  | ["tick", d] => match d.toNat? with
+      | some d => ({ s with nowNs := s.nowNs + (d : Int) * 1000000 }, none)
+      | none => (s, some "bad-op")
+  | "load" :: n :: rules => match n.toNat?, rules.mapM parseRule with
+      | some n, some rs =>
+        if rs.length ≠ n then (s, some "bad-op") else
+        let cs := mkCtls rs
+        ({ s with ctls := cs }, some (toString cs.length))
+      | _, _ => (s, some "bad-op")
+  | "entry" :: _ => match parseEntry ts with
+      | none => (s, some "bad-op")
+      | some e =>
+        let (cs, now, o) := slotCheck e.res e.args e.atts e.b s.ctls s.nowNs []
+        let r := if o.spin then "spin" else match o.blocked with
+          | some g => s!"block {g}"
+          | none => "pass"
+        ({ ctls := cs, nowNs := now }, some (r ++ showSleeps o.sleeps))
+  | _ => (s, some "bad-op")
+
+/-! ### oracle mode -/
+
+/-- what the oracle remembers about one value under one rule -/
+structure VRec where
+  svR : Option (Int × Int) := none       -- one-value reference machine (own sub-history only; reject)
+  svT : Option Int := none               -- … (throttling)
+  lastReq : Option Int := none           -- time of the latest request for this value that reached the rule
+  resident : Bool := false               -- inside a residency episode (per the recency spec)
+  first : Int := 0                       -- episode: first-seen time
+  admits : List (Int × Int) := []        -- episode: (time, tokens) admitted, latest first
+  lastSched : Int := 0                   -- episode: scheduled pass time of the latest admitted request
+
+structure ORule where
+  gid : Nat
+  rule : Rule
+  recency : List Val := []               -- spec of the LRU: the `cap` most recently metered values
+  distinct : List Val := []              -- every value metered so far
+  vals : List (Val × VRec) := []
+  tainted : Bool := false                -- some earlier request left the int64 range: no further claims for this rule
+
+structure OSt where
+  rules : List ORule := []
+  nowNs : Int := 0
+  t0 : Option Int := none
+  mono : Bool := true
+
+def getRec (o : ORule) (v : Val) : VRec := (o.vals.lookup v).getD {}
+
+def putRec (o : ORule) (v : Val) (r : VRec) : ORule :=
+  { o with vals := (v, r) :: o.vals.filter fun p => p.1 != v }
+
+/-- recency spec: `v` becomes the most recent; whoever falls out of the `cap` most recent ends its episode -/
+def touchSpec (o : ORule) (v : Val) : ORule :=
+  let rec' := v :: o.recency.filter (· != v)
+  let cap := capOf o.rule
+  let (keep, drop) := (rec'.take cap, rec'.drop cap)
+  let o := { o with recency := keep, distinct := if o.distinct.contains v then o.distinct else v :: o.distinct }
+  drop.foldl (fun o u => putRec o u { getRec o u with resident := false, admits := [] }) o
+
+inductive Verdict where
+  | ok | na | known (k : String) | bad (why : String)
+
+def Verdict.rank : Verdict → Nat
+  | .bad _ => 3 | .known _ => 2 | .ok => 1 | .na => 0
+
+def Verdict.join (a b : Verdict) : Verdict := if b.rank > a.rank then b else a
+
+def Verdict.show : Verdict → String
+  | .ok => "ok" | .na => "?" | .known k => "known:" ++ k | .bad y => "bad " ++ y
+
+def big : Int := 4611686018427387904   -- 2^62
+
+/-- arithmetic of this request stays inside int64 (then every `w` in the model is the identity) -/
+def fits (r : Rule) (Tv b now t0 : Int) : Bool :=
+  decide (0 ≤ Tv ∧ 0 ≤ b ∧ 0 ≤ r.burst ∧ 0 ≤ r.mq ∧ 0 < r.D ∧ Tv + r.burst < big ∧ r.D * 1000 < big
+    ∧ b * r.D * 1000 < 9007199254740992 ∧ (now - t0 + 1) * (Tv + 1) < big ∧ r.mq < 1000000000000
+    ∧ 0 ≤ t0 ∧ t0 ≤ now ∧ now < 100000000000000)
+
+/-- judge one request that reached rule `o` at time `t` (ms): `adm = some wait` or `none` = blocked here -/
+def judgeOne (o : ORule) (v : Val) (t b : Int) (adm : Option Int) (t0 : Int) : ORule × Verdict :=
+  let r := o.rule
+  let Tv := tokenCount r v
+  if o.tainted || !fits r Tv b t t0 then ({ o with tainted := true }, .na) else
+  let dms := r.D * 1000
+  let rec0 := getRec o v
+  if r.cb = 0 then
+    let maxC := Tv + r.burst
+    -- independence: the one-value machine on this value's own history
+    let (sv', d) := svReject Tv maxC dms rec0.svR t b
+    let meters := decide (0 < Tv ∧ b ≤ maxC)        -- the request is metered (touches the caches)
+    let o1 := if meters then touchSpec o v else o
+    let rec1 := getRec o1 v
+    let underCap := decide (o1.distinct.length ≤ capOf r)
+    let vInd : Verdict :=
+      if !underCap then .na
+      else if (d == .pass) == adm.isSome then .ok else .bad "independence"
+    let vWait : Verdict := match adm with
+      | some wt => if wt = 0 then .ok else .bad "reject-rule-waits"
+      | none => .ok
+    -- literal claims, per residency episode
+    let fresh := !rec1.resident
+    let first := if fresh then t else rec1.first
+    let admits := if fresh then [] else rec1.admits
+    let vLit : Verdict := match adm with
+      | some _ =>
+        let tot := (admits.map (·.2)).foldl (· + ·) 0 + b
+        let win := ((admits.filter fun p => decide (t - dms ≤ p.1)).map (·.2)).foldl (· + ·) 0 + b
+        if !(decide (tot * dms ≤ maxC * dms + Tv * (t - first))) then .bad "envelope"
+        else if !(decide (win ≤ 2 * maxC)) then .bad "two-max"
+        else .ok
+      | none =>
+        let idle := match rec0.lastReq with
+          | none => true
+          | some l => decide (t - l > dms)
+        if idle && decide (0 < Tv ∧ b ≤ Tv) then .bad "idle-grant" else .ok
+    let rec2 : VRec := { rec1 with
+      svR := sv', lastReq := some t,
+      resident := if meters then true else rec1.resident,
+      first := if meters then first else rec1.first,
+      admits := if meters then (match adm with | some _ => (t, b) :: admits | none => admits) else rec1.admits }
+    (putRec o1 v rec2, (vInd.join vWait).join vLit)
+  else
+    let ivReal := b * dms                      -- real spacing b·D/T ms  ⇔  gap·T ≥ b·D·1000
+    let iv := ivReal / Tv                      -- the code's spacing (floor, whole ms); Tv > 0 whenever used
+    let (sv', d) := svThrottle Tv (if Tv > 0 then iv else 0) r.mq rec0.svT t
+    let meters := decide (0 < Tv)
+    let o1 := if meters then touchSpec o v else o
+    let rec1 := getRec o1 v
+    let underCap := decide (o1.distinct.length ≤ capOf r)
+    let dAdmit : Option Int := match d with
+      | .pass => some 0
+      | .wait ms => some ms
+      | _ => none
+    let vInd : Verdict :=
+      if !underCap then .na else if dAdmit == adm then .ok else .bad "independence"
+    let fresh := !rec1.resident
+    let vLit : Verdict := match adm with
+      | some wt =>
+        if decide (wt > 0 ∧ wt ≥ r.mq) then .bad "wait-ge-max"
+        else if wt < 0 then .bad "negative-wait"
+        else if fresh then .ok
+        else
+          let gap := t + wt - rec1.lastSched
+          if gap < iv then .bad "pacing"
+          else if gap * Tv < ivReal then .known "hot-throttle-floor"
+          else .ok
+      | none => .ok
+    let rec2 : VRec := { rec1 with
+      svT := sv', lastReq := some t,
+      resident := if meters then true else rec1.resident,
+      lastSched := match adm with | some wt => t + wt | none => rec1.lastSched }
+    (putRec o1 v rec2, vInd.join vLit)
+
+def parseResult (r : String) : Option (Option Nat × List Int) :=
+  let ts := toks r
+  let sleeps (rest : List String) : Option (List Int) := match rest with
+    | [] => some []
+    | [wl] => if wl.startsWith "w:" then ((wl.drop 2).toString.splitOn ",").mapM (·.toInt?) else none
+    | _ => none
+  match ts with
+  | "pass" :: rest => (sleeps rest).map fun sl => (none, sl)
+  | "block" :: g :: rest => match g.toNat? with
+    | some g => (sleeps rest).map fun sl => (some g, sl)
+    | none => none
+  | _ => none
+
+/-- walk the rules of the resource in order, as the slot does, attributing the (single) sleep to the throttling rule -/
+def judgeEntry (s : OSt) (e : Entry) (blocked : Option Nat) (sleeps : List Int) : OSt × Verdict :=
+  let mine := s.rules.filter fun o => o.rule.res = e.res
+  let nThr := (mine.filter fun o => o.rule.cb ≠ 0).length
+  let sleepNs := sleeps.foldl (· + ·) 0
+  let s1 := { s with nowNs := s.nowNs + sleepNs }
+  if !s.mono || nThr ≥ 2 then (s1, .na) else
+  if sleeps.length > 1 || sleeps.any (fun x => x ≤ 0 || x % 1000000 ≠ 0) then (s1, .bad "sleeps") else
+  match blocked with
+  | some g => if !(mine.any fun o => o.gid = g) then (s1, .bad "blocked-by-foreign-rule") else go s1 mine
+  | none => go s1 mine
+where
+  go (s1 : OSt) (_mine : List ORule) : OSt × Verdict :=
+    let t0 := s.t0.getD 0
+    let waitMs := (sleeps.foldl (· + ·) 0) / 1000000
+    -- fold over all rules (keeps order), tracking time, whether we are past the blocker, and whether the sleep was used
+    let init : List ORule × Int × Bool × Bool × Verdict := ([], s.nowNs / 1000000, false, false, Verdict.ok)
+    let (rs, _, _, used, vd) := s.rules.foldl (fun (acc : List ORule × Int × Bool × Bool × Verdict) o =>
+      let (out, t, stopped, used, vd) := acc
+      if stopped || o.rule.res ≠ e.res then (out ++ [o], t, stopped, used, vd) else
+      match extract o.rule e.args e.atts with
+      | none =>
+        if blocked = some o.gid then (out ++ [o], t, true, used, vd.join (.bad "blocked-without-argument"))
+        else (out ++ [o], t, stopped, used, vd)
+      | some v =>
+        if blocked = some o.gid then
+          let (o', x) := judgeOne o v t e.b none t0
+          (out ++ [o'], t, true, used, vd.join x)
+        else
+          let wt := if o.rule.cb ≠ 0 then waitMs else 0
+          let (o', x) := judgeOne o v t e.b (some wt) t0
+          (out ++ [o'], t + wt, stopped, used || (o.rule.cb ≠ 0), vd.join x)) init
+    let vd := if waitMs > 0 && !used then vd.join (.bad "sleep-without-throttling-rule") else vd
+    ({ s1 with rules := rs }, vd)
+
+def stepOracle (s : OSt) (ts : List String) (line : String) : OSt × Option String :=
+  match ts with
+  | ["clock", t] => match t.toNat? with
+      | some t =>
+        let ns := (t : Int) * 1000000
+        ({ s with nowNs := ns, mono := s.mono && decide (s.nowNs ≤ ns), t0 := some (s.t0.getD (t : Int)) }, none)
+      | none => (s, some "bad-op")
+  | ["tick", d] => match d.toNat? with
+      | some d => ({ s with nowNs := s.nowNs + (d : Int) * 1000000 }, none)
+      | none => (s, some "bad-op")
+  | "load" :: n :: rules => match n.toNat?, rules.mapM parseRule with
+      | some n, some rs =>
+        if rs.length ≠ n then (s, some "bad-op") else
+        let cs := mkCtls rs
+        let want := toString cs.length
+        let os := cs.map fun c => ({ gid := c.gid, rule := c.rule } : ORule)
+        ({ s with rules := os }, some (if resPart line = some want then "ok" else "bad rules-in-force"))
+      | _, _ => (s, some "bad-op")
+  | "entry" :: _ => match parseEntry ts, (resPart line).bind parseResult with
+      | some e, some (blocked, sleeps) =>
+        let (s', v) := judgeEntry s e blocked sleeps
+        (s', some v.show)
+      | some _, none => (s, some "bad unparsable-result")
+      | none, _ => (s, some "bad-op")
+  | _ => (s, some "bad-op")
+
+def run (mode : String) : IO Unit :=
+  if mode == "oracle" then loop ({} : OSt) stepOracle else loop ({} : St) stepModel
+
 end Sentinel.Drv.C05
